@@ -17,6 +17,7 @@ type StrV struct {
 	B     []*Term // bv8, capacity (nil while lazy: see R)
 	R     *Rope   // optional token structure: string == join(tokens, "/"), every piece is '/'-free
 	EscOf *StrV   // set on the result of jsonpointer.Escape: the string it is the escaped form of
+	UEscOf *StrV  // set on url-escaped pieces ((*url.URL).String of a fragment): the string it is the escaped form of
 	Ch    *strChoice // lazy merge: the string is A under C, else B (B and R are nil then); forced by fl()
 }
 
@@ -364,14 +365,11 @@ func mergeV(c *Term, a, b Value) Value {
 	case StrV:
 		y := b.(StrV)
 		if (x.R != nil || x.Ch != nil) && (y.R != nil || y.Ch != nil) {
-			// keep structured strings apart (lazy merge)
-			if y.Ch != nil && y.Ch.C == c {
-				y = y.Ch.B
-			}
-			if x.Ch != nil && x.Ch.C == c {
-				x = x.Ch.A
-			}
-			return StrV{Len: Ite(c, x.Len, y.Len), Ch: &strChoice{C: c, A: x, B: y}}
+			// keep structured strings apart (lazy merge), as a chain over the DISTINCT alternatives
+			var alts []strAlt
+			strAlts(x, c, &alts)
+			strAlts(y, Not(c), &alts)
+			return mkChoice(alts)
 		}
 		return flatMerge(c, x, y)
 	case StructV:
@@ -761,4 +759,56 @@ type thunkAlt struct {
 type appThunk struct {
 	Base, Tail []thunkAlt
 	StrTail    *StrV
+}
+
+type strAlt struct {
+	G *Term
+	S StrV
+}
+
+func sameLeaf(a, b StrV) bool {
+	if ca, ok := a.Concrete(); ok {
+		cb, ok2 := b.Concrete()
+		return ok2 && ca == cb
+	}
+	if a.R != nil && a.R == b.R {
+		return true
+	}
+	return false
+}
+
+// strAlts flattens a (possibly nested) lazily merged string into guarded leaves, merging equal leaves.
+func strAlts(s StrV, g *Term, out *[]strAlt) {
+	if g.IsFalse() {
+		return
+	}
+	if s.B == nil && s.Ch != nil {
+		strAlts(s.Ch.A, And(g, s.Ch.C), out)
+		strAlts(s.Ch.B, And(g, Not(s.Ch.C)), out)
+		return
+	}
+	for i := range *out {
+		if sameLeaf((*out)[i].S, s) {
+			(*out)[i].G = Or((*out)[i].G, g)
+			return
+		}
+	}
+	*out = append(*out, strAlt{g, s})
+}
+
+// mkChoice builds ite(g1, s1, ite(g2, s2, ... sk)) from mutually exclusive, exhaustive alternatives.
+func mkChoice(alts []strAlt) StrV {
+	if len(alts) == 0 {
+		return StrC("")
+	}
+	res := alts[len(alts)-1].S
+	for i := len(alts) - 2; i >= 0; i-- {
+		a := alts[i]
+		if a.G.IsTrue() {
+			res = a.S
+			continue
+		}
+		res = StrV{Len: Ite(a.G, a.S.Len, res.Len), Ch: &strChoice{C: a.G, A: a.S, B: res}}
+	}
+	return res
 }
